@@ -81,6 +81,11 @@ def emit_item(it, ctx, meta, modpath, emit_items, weave_fn, filter_attrs, strip_
         inner = emit_children(it, ctx, meta, modpath, emit_items, weave_fn)
         inj = ctx.inject_text("impl " + it.key, ctx, meta)
         attrs = filter_attrs(it, ctx)
+        if getattr(it, "external_shell", False):
+            attrs.append("#[verifier::external]")
+            raw = text_of(it.header).strip() + " {\n" + "\n\n".join(
+                "\n".join(ctx.filter_attrs(c, ctx)) + "\n" + text_of(c.toks) for c in it.children) + "\n}"
+            return "\n".join(attrs) + "\n" + raw
         pre = "\n".join(hoisted) + ("\n" if hoisted else "")
         return pre + "\n".join(attrs) + ("\n" if attrs else "") + "%s {\n%s%s\n}" % (hdr, inj, inner)
     if k == "fn":
@@ -260,6 +265,47 @@ def flatten_fci(items, ctx, modpath):
                             "what": "impl RtcpPacketWriter for %s re-homed under impl FciBuilder" % it.impl_type})
             continue
         out.append(it)
+    return out
+
+
+def split_iterators(items, ctx):
+    """R7: `impl Iterator for T { type Item = X; fn next }` is kept as a #[verifier::external] shell and
+    `next` is duplicated verbatim as an inherent method (which receives the contract)."""
+    import copy
+    out = []
+    for it in items:
+        out.append(it)
+        if it.kind == "impl" and it.impl_trait == "Iterator":
+            fns = [c for c in it.children if c.kind == "fn"]
+            tys = [c for c in it.children if c.kind == "type"]
+            if len(fns) != 1 or fns[0].name != "next" or len(tys) != 1:
+                _err("unsupported: Iterator impl shape for %s" % it.impl_type)
+            m = re.search(r"type\s+Item\s*=\s*(.*)\s*;\s*$", text_of(tys[0].toks), re.S)
+            item_ty = m.group(1)
+            it.external_shell = True
+            h = text_of(it.header)
+            mh = re.match(r"(\s*impl\s*(?:<.*>)?\s*)(?:[\w:]+::)?Iterator\s+for\s+(.*)$", h, re.S)
+            if not mh:
+                _err("unsupported: Iterator impl header for %s" % it.impl_type)
+            dup = Item()
+            dup.kind = "impl"
+            dup.line = it.line
+            dup.attrs = []
+            dup.header = [Tok("ident", mh.group(1) + mh.group(2), it.line)]
+            dup.impl_type = it.impl_type
+            dup.impl_trait = None
+            f = copy.copy(fns[0])
+            f.header = [Tok(t.kind, t.text, t.line) for t in f.header]
+            # Self::Item -> concrete item type
+            htxt = text_of(f.header).replace("Self::Item", item_ty)
+            f.header = [Tok("ident", htxt, f.line)]
+            f.parent = dup
+            dup.children = [f]
+            dup.body = []
+            dup.toks = []
+            out.append(dup)
+            ctx.log.append({"rule": "R7", "file": ctx.cur_file, "line": it.line,
+                            "what": "impl Iterator for %s kept as external shell; next duplicated as inherent fn" % it.impl_type})
     return out
 
 
